@@ -85,7 +85,7 @@ func (c *Ctx) compareReads(pj *simdjson.ParsedJson, specDump string, info map[st
 
 func checkC02(c *Ctx) {
 	r := c.Rng
-	c.Ev.Coverage.Rule = "accepted documents read through every path of the real API (Advance+Root+Array.Iter+NextElementBytes, Interface()/Map(), ParsedJson/Array/Object.ForEach, AdvanceIter+Object.Parse) compared with each other, with the typed bulk accessors (Array.AsFloat/AsInteger/AsUint64/AsString/AsStringCvt/Interface/MarshalJSON, Object.Map/FindKey/...) judged against plain traversal, with the modelled read paths run on the same tape, with the tape's denotation and with the specification's document; tapes also compared word for word with the model's. Streams: grammar-directed documents (G1), boundary-positioned ones (G7), deep nesting 1..3000, wide containers >= 3*1408 members, duplicate keys, every scalar kind, arrays of numbers at the int64/uint64/float64 edges. values returned by Interface()/String() re-read after the ParsedJson was reused and the input overwritten (copying mode). non-trivial = accepted document; distinct = by input bytes"
+	c.Ev.Coverage.Rule = "accepted documents read through every path of the real API (Advance+Root+Array.Iter+NextElementBytes, Interface()/Map(), ParsedJson/Array/Object.ForEach, AdvanceIter+Object.Parse) compared with each other, with the typed bulk accessors (Array.AsFloat/AsInteger/AsUint64/AsString/AsStringCvt/Interface/MarshalJSON, Object.Map/FindKey/...) judged against plain traversal, with the modelled read paths run on the same tape, with the tape's denotation and with the specification's document; tapes also compared word for word with the model's. Streams: grammar-directed documents (G1), boundary-positioned ones (G7), deep nesting 1..3000, wide containers >= 3*1408 members, duplicate keys, every scalar kind, arrays of numbers at the int64/uint64/float64 edges. chains of documents of very different make-up parsed into one reused ParsedJson (dump and tape as without reuse); values returned by Interface()/String() re-read after the ParsedJson was reused and the input overwritten (copying mode). non-trivial = accepted document; distinct = by input bytes"
 	flags := ChkVerdict | ChkDump | ChkModel | ChkKernels | ChkCopyModes | ChkNoPanic
 	var batch []PCase
 	nreads := 0
@@ -181,6 +181,78 @@ func checkC02(c *Ctx) {
 		}
 	}
 	flush()
+	// chains of documents of very different make-up parsed into ONE reused ParsedJson (number-dense
+	// with a large tape and no strings, string-heavy, tiny, mixed): what is exposed is the
+	// current document alone — same dump and same tape as a parse without reuse
+	{
+		var prev *simdjson.ParsedJson
+		for i := 0; i < c.N(300, 3000); i++ {
+			var doc []byte
+			switch r.Intn(5) {
+			case 0:
+				doc = []byte("[" + strings.Repeat("1,", 300+r.Intn(2500)) + "0]")
+			case 1:
+				var sb strings.Builder
+				sb.WriteString("{")
+				for k := 0; k < 20+r.Intn(150); k++ {
+					if k > 0 {
+						sb.WriteString(",")
+					}
+					fmt.Fprintf(&sb, `"key%d":"%s"`, k, strings.Repeat("v", 5+r.Intn(40)))
+				}
+				sb.WriteString("}")
+				doc = []byte(sb.String())
+			case 2:
+				doc = genDoc(r, smallOpts(r))
+			case 3:
+				doc = []byte(`{"t":[true,false,null,true,false,null],"n":` + "[" + strings.Repeat("null,", r.Intn(900)) + "null]}")
+			default:
+				doc = genDoc(r, &GenOpts{MaxDepth: 4, MaxFan: 6, TopFan: 20 + r.Intn(80), WS: r.Intn(4)})
+			}
+			// a chain is short (buffers only ever grow along it), and one chain in three is the
+			// directed pair "number-dense document, then a string-heavy one 1.5 to 6 times as long"
+			if i%6 == 0 {
+				prev = nil
+			}
+			if (i/6)%3 == 0 && i%6 < 2 {
+				n1 := []int{300, 600, 1200, 2400}[(i/18)%4]
+				if i%6 == 0 {
+					doc = []byte("[" + strings.Repeat("1,", n1) + "0]")
+				} else {
+					var sb strings.Builder
+					sb.WriteString("{")
+					for k := 0; sb.Len() < 2*n1*[]int{3, 6, 12}[(i/72)%3]/2; k++ {
+						if k > 0 {
+							sb.WriteString(",")
+						}
+						fmt.Fprintf(&sb, `"key%d":"%s"`, k, strings.Repeat("v", 5+r.Intn(40)))
+					}
+					sb.WriteString("}")
+					doc = []byte(sb.String())
+				}
+			}
+			cp := r.Bool()
+			got := implParse(doc, false, cp, prev)
+			want := implParse(doc, false, cp, nil)
+			c.Ev.Count("reuse-chain", append([]byte{byte(i)}, doc...), !want.Err)
+			if got.Err != want.Err {
+				c.Violate("document", "a parse into a reused ParsedJson has another verdict than a parse without reuse", "reuse-chain-verdict", map[string]interface{}{"doc_hex": fmt.Sprintf("%x", trunc(string(doc), 3000)), "doc_len": len(doc), "step": i})
+				break
+			}
+			if got.Err {
+				prev = nil
+				continue
+			}
+			a, e1 := dumpDoc(got.PJ)
+			b, e2 := dumpDoc(want.PJ)
+			if e1 != nil || e2 != nil || a != b || !eqU64(got.Tape, want.Tape) {
+				c.Violate("document", "a document parsed into a reused ParsedJson is exposed differently from the same document parsed without reuse (dump or tape)", "reuse-chain-doc",
+					map[string]interface{}{"doc_hex": fmt.Sprintf("%x", trunc(string(doc), 3000)), "doc_len": len(doc), "step": i, "reused": trunc(a, 300), "fresh": trunc(b, 300), "reused_tape_words": len(got.Tape), "fresh_tape_words": len(want.Tape)})
+				break
+			}
+			prev = got.PJ
+		}
+	}
 	// values handed out by the API are values, not views: what Interface() / String() /
 	// AsString returned keeps its content after the ParsedJson is parsed into again (its string
 	// buffer is reused) and after the caller's input buffer is overwritten
